@@ -537,9 +537,14 @@ def c18(tier, seed):
                                        maxenv=6 if quick else 7, nowait=True) if any(x["nowait"] for x in s["steps"])]
         rnd = random.Random(seed)
         rnd.shuffle(nw)
+        # back-to-back GatherCandidates calls (the second arrives while the state is still New) are real races, decided by the Go
+        # scheduler: these scenarios are always in, three copies each, so that a loaded machine does not decide what is looked at
+        b2b = [s for s in nw if len(s["steps"]) >= 2 and s["steps"][0]["a"] == "Gather" and s["steps"][0]["nowait"] and s["steps"][1]["a"] == "Gather"]
         if quick:
             nw = nw[:1500]
+        nw = nw + [json.loads(json.dumps(s)) for s in b2b for _ in range(3)]
         stats["scenarios_quiescent"], stats["scenarios_nowait"] = len(scs), len(nw)
+        stats["scenarios_back_to_back_gather"] = len(b2b)
         judge_scenarios(work, binary, verdict, stats, scs + nw, C18_CYCLE_PREDS, "cycle", lambda p, sc, recs, li, rid: c18c_features(p, sc, recs, li))
         reg = regression_scenarios()
         stats["scenarios_regression_handoff_race"] = len(reg)
